@@ -49,7 +49,22 @@ def hist_gen(hists, seed, frac):
 
 
 # ------------------------------------------------------------------------------------------------ order part
-def order_event(tid, base0, steps, bound=False):
+def make_decorator(s):
+    from sigtools import modifiers
+    if s['kind'] == 'kwo':
+        return modifiers.kwoargs(*s['names'])
+    if s['kind'] == 'po':
+        return modifiers.posoargs(*s['names'])
+    if s['kind'] == 'start':
+        return modifiers.kwoargs(start=s['names'][0])
+    if s['kind'] == 'end':
+        return modifiers.posoargs(end=s['names'][0])
+    if s['kind'] == 'auto':
+        return modifiers.autokwoargs(exceptions=s['names']) if s['names'] else modifiers.autokwoargs
+    return modifiers.annotate(**{n: absig.AN[9] for n in s['names']})
+
+
+def order_event(tid, base0, steps, bound=False, shared=False):
     """steps: list of dicts (kind: 'kwo'|'po'|'auto'|'ann'|'start'|'end', names).  Applies every permutation; bound: the function is a
     method (self first, part of every positional-only selection) and what is compared is what an instance's bound method advertises and does."""
     from sigtools import modifiers
@@ -73,6 +88,8 @@ def order_event(tid, base0, steps, bound=False):
             c['map'].pop('self', None)
         return modif.routes(t), calls
     perms = []
+    # shared: ONE decorator object per step, applied again in every permutation (repeated use of a decorator must not change what it does)
+    decos = [make_decorator(s) for s in steps] if shared else None
     for perm in itertools.permutations(range(len(steps))):
         f = modif.make(base)
         ok = 'ok'
@@ -81,18 +98,7 @@ def order_event(tid, base0, steps, bound=False):
             s = steps[j]
             kept.append((f, observe(f)))
             try:
-                if s['kind'] == 'kwo':
-                    f = modifiers.kwoargs(*s['names'])(f)
-                elif s['kind'] == 'po':
-                    f = modifiers.posoargs(*s['names'])(f)
-                elif s['kind'] == 'start':
-                    f = modifiers.kwoargs(start=s['names'][0])(f)
-                elif s['kind'] == 'end':
-                    f = modifiers.posoargs(end=s['names'][0])(f)
-                elif s['kind'] == 'auto':
-                    f = modifiers.autokwoargs(exceptions=s['names'])(f) if s['names'] else modifiers.autokwoargs(f)
-                else:
-                    f = modifiers.annotate(**{n: absig.AN[9] for n in s['names']})(f)
+                f = (decos[j] if shared else make_decorator(s))(f)
             except ValueError:
                 ok = 'ValueError'
                 break
@@ -106,7 +112,7 @@ def order_event(tid, base0, steps, bound=False):
         if ok == 'ok':
             p['adv'], p['calls'] = observe(f)
         perms.append(p)
-    return {'tid': tid, 'op': 'order', 'base': base, 'steps': steps, 'bound': bound, 'perms': perms, 'case': {'base0': base0, 'steps': steps, 'bound': bound}}
+    return {'tid': tid, 'op': 'order', 'base': base, 'steps': steps, 'bound': bound, 'perms': perms, 'case': {'base0': base0, 'steps': steps, 'bound': bound, 'shared': shared}}
 
 
 def order_gen(U, n, seed):
@@ -130,7 +136,7 @@ def order_gen(U, n, seed):
                         names = ['self'] + names          # a positional-only selection of a method has to include the instance parameter
                 steps.append({'kind': kind, 'names': names})
             if k % nshards == shard:
-                yield order_event('order/%d' % k, ps, steps, bound)
+                yield order_event('order/%d' % k, ps, steps, bound, shared=(k % 2 == 1))
     return gen
 
 
@@ -186,5 +192,5 @@ def replay(check, case, scratch):
             if 'hist' in c:
                 yield hist.history_event(case['tid'], c['kind'], c['hist'])
             else:
-                yield order_event(case['tid'], c['base0'], c['steps'], c.get('bound', False))
+                yield order_event(case['tid'], c['base0'], c['steps'], c.get('bound', False), c.get('shared', False))
     run_trace_leg(check, scratch, 'replay', gen, None, nshards=1, module='Trace_Hist', describe=describe, classify=classify)
